@@ -6,6 +6,7 @@ mod common;
 mod history;
 mod mirror;
 mod nogood;
+mod store;
 
 use simcore::cli::{cmd_dump, cmd_replay, cmd_run, Dyn};
 
@@ -17,6 +18,8 @@ fn lookup(scenario: &str, property: &str) -> Option<Box<dyn Dyn>> {
         ("history", "C14") => Some(Box::new(history::History { property: "C14" })),
         ("history", "C06") => Some(Box::new(history::History { property: "C06" })),
         ("mirror", "C06") => Some(Box::new(mirror::Mirror { property: "C06" })),
+        ("store", "C06") => Some(Box::new(store::Store { property: "C06" })),
+        ("store", "C11") => Some(Box::new(store::Store { property: "C11" })),
         _ => None,
     }
 }
